@@ -45,13 +45,15 @@ def max_antichain(G, need, starts=(), ends=()):
     return best
 
 
-def check_instance(ctx, info, cyclic):
+def check_instance(ctx, info, cyclic, strict=False):
     import flowpaths as fp
     name = info["class"]; G = info["G"]; node = info["node"]
     rep = {"instance": zoo.describe(info)}
     try:
         m = zoo.construct(info); ok = m.solve()
     except ValueError as e:
+        if strict:
+            ctx.report(f"{name} raised {e!r} on an input inside the documented domain", rep)
         ctx.dist("ValueError"); return
     except Exception as e:
         ctx.report(f"{name} raised {e!r}", rep); return
@@ -158,8 +160,91 @@ def run(ctx):
         ctx.case(zoo.describe(info), nontrivial=info["G"].number_of_edges() >= 3,
                  sample={"class": name, "edges": [list(e) for e in info["G"].edges()], "ignore": info["ignore"]})
         ctx.dist(f"{name}:{'node' if info['node'] else 'edge'}")
+    run_ignored_scc(ctx)
+    run_width_histories(ctx)
     run_families(ctx)
     VB.flush()
+
+
+def scc_edge_sets(G):
+    out = []
+    for comp in nx.strongly_connected_components(G):
+        es = [(u, v) for u, v in G.edges() if u in comp and v in comp]
+        if es:
+            out.append(es)
+    return out
+
+
+def run_ignored_scc(ctx):
+    """every edge of a whole strongly connected component ignored (plus, sometimes, the edges entering/leaving it):
+    nothing of that component needs covering; the width / cover must be computed on the rest"""
+    for i in range(ctx.budget(70, 1200)):
+        rng = ctx.rng("ignscc", i)
+        info = zoo.make(rng, "MinPathCoverCycles", node=False, with_ignore=False, with_cons=False, with_starts=False, nmax=6)
+        G = info["G"]
+        sccs = scc_edge_sets(G)
+        if not sccs:
+            continue
+        es = list(rng.choice(sccs))
+        comp = set(v for e in es for v in e)
+        if rng.random() < 0.5:
+            es += [e for e in G.edges() if (e[0] in comp) != (e[1] in comp) and rng.random() < 0.7]
+        es += [e for e in G.edges() if e not in es and rng.random() < 0.1]
+        if len(set(es)) >= G.number_of_edges():
+            continue
+        info["ignore"] = [tuple(e) for e in dict.fromkeys(es)]
+        info["kwargs"]["elements_to_ignore"] = [tuple(e) for e in dict.fromkeys(es)]
+        check_instance(ctx, info, True, strict=True)
+        ctx.case(["ignscc", zoo.describe(info)], nontrivial=True); ctx.count("E2_ignored_scc", "cases")
+
+
+def run_width_histories(ctx):
+    """get_width asked repeatedly on ONE s-t graph object with different ignore sets (pieces of a component, then the whole,
+    then nothing) answers like a fresh object each time"""
+    import flowpaths as fp
+    for i in range(ctx.budget(60, 1000)):
+        rng = ctx.rng("widthhist", i)
+        cyclic = i % 3 != 0
+        G = (gen.rand_cyclic(rng, nmax=6) if cyclic else gen.rand_dag(rng, nmax=6))
+        if G.number_of_edges() == 0 or G.number_of_edges() > 12:
+            continue
+        G.graph["id"] = "graph 1"
+        cls = fp.stDiGraph if cyclic else fp.stDAG
+        try:
+            st = cls(G)
+        except ValueError:
+            continue
+        edges = list(G.edges()); sccs = scc_edge_sets(G) if cyclic else []
+        sets_ = []
+        for _ in range(rng.randint(3, 6)):
+            r = rng.random()
+            if sccs and r < 0.5:
+                comp = rng.choice(sccs); sets_.append([e for e in comp if rng.random() < 0.6] or comp[:1])
+            elif sccs and r < 0.7:
+                sets_.append(list(rng.choice(sccs)))
+            elif r < 0.85:
+                sets_.append([e for e in edges if rng.random() < 0.3])
+            else:
+                sets_.append([])
+        rep = {"edges": [list(e) for e in edges], "cyclic": cyclic, "ignore_sets": [[list(e) for e in s_] for s_ in sets_]}
+        ctx.case(["widthhist", rep], nontrivial=True); ctx.count("E4_width_histories", "histories")
+        for j, ig in enumerate(sets_):
+            if len(ig) >= len(edges):
+                continue
+            got = exp = None
+            try:
+                got = st.get_width(edges_to_ignore=list(ig) + list(st.source_sink_edges))
+            except Exception as e:
+                got = f"raise:{type(e).__name__}"
+            try:
+                fresh = cls(G); exp = fresh.get_width(edges_to_ignore=list(ig) + list(fresh.source_sink_edges))
+            except Exception as e:
+                exp = f"raise:{type(e).__name__}"
+            ctx.count("E4_width_histories", "queries")
+            if got != exp:
+                ctx.report(f"get_width call #{j + 1} on one object = {got}, a fresh object answers {exp}", rep); break
+            if isinstance(exp, str):
+                ctx.report(f"get_width raised on a fresh object: {exp}", rep); break
 
 
 def bottleneck_scc(nA, nB):
